@@ -7,7 +7,7 @@ import os
 import subprocess
 import time
 
-from . import spawn_scen
+from . import launch_gen, spawn_scen
 from .common import (run_harness, BIN, ToolError, build_harness, finish, load_findings, log, save_replay, tlc_mc,
                      validate_sharded, workdir, write_evidence, WORK)
 
@@ -66,6 +66,15 @@ def run(pid, tier, seed, replay=None):
     mc = []
     if replay is None:
         scs = scenarios(pid, tier, seed)
+        if pid == "C07":
+            # the control flow of create()/drop around one launch with a failure at any one step (Launch.tla), and
+            # every one of its behaviours replayed into the real code
+            r = tlc_mc("Launch.tla", "MC_Launch.cfg", "C07_Launch", workers=4)
+            mc.append({k: r[k] for k in ("cfg", "states", "distinct", "ok", "error", "wall_s")})
+            log("[mc] MC_Launch.cfg: %d distinct states, ok=%s (%.1fs)" % (r["distinct"], r["ok"], r["wall_s"]))
+            gen = launch_gen.generate()
+            log("[gen] %d launches from the %d failure plans of Launch.tla" % (len(gen), len({json.dumps(g["model"], sort_keys=True) + str(g["detached"]) + str(g.get("fault", {}).get("errno")) for g in gen})))
+            scs = scs + gen
         for cfg in {"C05": ["MC_Spawn_1.cfg"], "C07": ["MC_Spawn_1.cfg", "MC_Spawn_2a.cfg"], "C08": ["MC_Spawn_2a.cfg"]}.get(pid, []):
             r = tlc_mc("MCSpawn.tla", cfg, "%s_%s" % (pid, cfg[:-4]), workers=8)
             mc.append({k: r[k] for k in ("cfg", "states", "distinct", "ok", "error", "wall_s")})
@@ -198,6 +207,23 @@ def run(pid, tier, seed, replay=None):
         tv_states += wstates
         extra_traces += len(wres)
         extra_traces += len(bres)
+    refinement = {}
+    if pid == "C07" and replay is None:
+        same, drift = 0, []
+        for sid, sc in by_id.items():
+            if "model" in sc and sid in blk:
+                d = launch_gen.compare(sc, blk[sid])
+                if d is None:
+                    same += 1
+                else:
+                    drift.append({"launch": sid, "difference": d})
+        refinement = {"behaviours_of_Launch_tla_replayed": same + len(drift), "same_outcome_as_model": same,
+                      "drift_examples": drift[:5]}
+        if drift:
+            log("MODEL-DRIFT property=C07: %d of %d replayed behaviours of Launch.tla ended otherwise than the model predicts "
+                "(first: %s: %s) -- informational, the verdict comes from the monitors" % (len(drift), same + len(drift), drift[0]["launch"], drift[0]["difference"]))
+        else:
+            log("[gen] all %d replayed behaviours of Launch.tla ended as the model predicts" % same)
     samples = [{"scenario": by_id[i], "trace_head": [json.loads(x) for x in blk[i][1:10]]} for i in list(blk)[:2]]
     cov = {
         "states": max(1, sum(m["distinct"] for m in mc) + tv_states),
@@ -210,6 +236,7 @@ def run(pid, tier, seed, replay=None):
                 "validated by TLC against SpawnTrace.tla; non-trivial = the launch got as far as fork()",
         "exhaustive": False,
         "model_checking": mc,
+        "refinement": refinement,
         "trace_validation_states": tv_states,
         "monitors_of_other_properties_fired": others,
         "replay_note": note,
